@@ -221,7 +221,7 @@ def build(ctx):
     for l in (1, 2, 3):
         seqs += list(itertools.product(alphabet, repeat=l))
     if not ctx.thorough:
-        seqs = [s for s in seqs if len(s) <= 2 or s[-1] == "roll"]
+        seqs = [s for s in seqs if len(s) <= 2 or s[-1] == "roll" or (s[1] == "roll" and s[0] == s[2])]
     for s in seqs:
         nm = "|".join(x if isinstance(x, str) else "%s(%d)" % x for x in s)
         for (N_, T_) in ((2, 3), (3, 4)):
